@@ -53,3 +53,46 @@ def ks_cdf(n, d):
             s *= 1e140
             eQ -= 140
     return float(s * 10.0 ** eQ)
+
+
+def ks_cdf_pelz_good(n, d, dps=40):
+    """P[D_n <= d] for LARGE n by the asymptotic expansion of Pelz & Good (1976, JRSS B 38, 152-156; as restated by Simard &
+    L'Ecuyer 2011, J. Stat. Softw. 39(11), eq. 5; K1 = K0'/6):
+
+        P[sqrt(n) D_n <= z] = K0(z) + K1(z)/n^(1/2) + K2(z)/n + K3(z)/n^(3/2) + O(n^-2),
+
+    written with the theta-function forms of the four terms (sums over half-integers h = k + 1/2 and integers k, weights
+    exp(-pi^2 h^2 / (2 z^2))), evaluated with mpmath at `dps` digits so that the only error is the truncation of the expansion
+    (measured against the matrix algorithm: about 0.05/n^2, i.e. 2e-9 at n = 5000, 1e-10 at n = 20000, 5e-12 at n = 10^5).  The matrix algorithm above costs O(n^2 d^2 log n) and is out of reach beyond n ~ 10^5;
+    this evaluation is O(1).  It is independent of the implementation under test (which inverts scipy's kstwo) and of the limiting
+    law alone (K0), and the harness validates it against the matrix algorithm at n = 5000 and 20000 before it is used to judge."""
+    import mpmath as mp
+    n = int(n)
+    if d <= 0.5 / n:
+        return 0.0
+    if d >= 1.0:
+        return 1.0
+    with mp.workdps(dps):
+        nn, z = mp.mpf(n), mp.sqrt(mp.mpf(n)) * mp.mpf(d)
+        if n * d * d >= 40:          # 1 - K0 < 2 exp(-80)
+            return 1.0
+        if z < mp.mpf("0.02"):       # every term carries exp(-pi^2/(8 z^2)) < 1e-1300
+            return 0.0
+        pi2 = mp.pi ** 2
+        K = int(6 * z) + 8           # the weights fall below exp(-pi^2 K^2/(2 z^2)) < 1e-70
+        halves = [mp.mpf(k) + mp.mpf(1) / 2 for k in range(-K - 1, K + 1)]      # symmetric: -(K+1/2) .. K+1/2
+        ints = [mp.mpf(k) for k in range(-K, K + 1)]
+        wh = [(h, mp.exp(-pi2 * h * h / (2 * z * z))) for h in halves]
+        wk = [(k, mp.exp(-pi2 * k * k / (2 * z * z))) for k in ints]
+        c = mp.sqrt(mp.pi / 2)
+        z2, z3, z4, z6, z7, z8, z10 = z ** 2, z ** 3, z ** 4, z ** 6, z ** 7, z ** 8, z ** 10
+        k0 = c / z * mp.fsum(w for _h, w in wh)
+        k1 = c / (6 * z4) * mp.fsum((pi2 * h * h - z2) * w for h, w in wh)
+        k2 = (c / (72 * z7) * mp.fsum(((6 * z6 + 2 * z4) + pi2 * (2 * z4 - 5 * z2) * h ** 2 + pi2 ** 2 * (1 - 2 * z2) * h ** 4) * w
+                                      for h, w in wh)
+              - c / (36 * z3) * mp.fsum(pi2 * k * k * w for k, w in wk))
+        k3 = (c / (6480 * z10) * mp.fsum((pi2 ** 3 * h ** 6 * (5 - 30 * z2) + pi2 ** 2 * h ** 4 * (-60 * z2 + 212 * z4)
+                                          + pi2 * h ** 2 * (135 * z4 - 96 * z6) - (30 * z6 + 90 * z8)) * w for h, w in wh)
+              + c / (216 * z6) * mp.fsum((-pi2 ** 2 * k ** 4 + 3 * pi2 * k * k * z2) * w for k, w in wk))
+        p = k0 + k1 / mp.sqrt(nn) + k2 / nn + k3 / (nn * mp.sqrt(nn))
+        return float(min(mp.mpf(1), max(mp.mpf(0), p)))
